@@ -14,6 +14,7 @@ import Spec.Tlsh
 import Spec.Nilsimsa
 import Proofs.Lemmas.Tlsh
 import Proofs.Lemmas.TlshRef
+import Proofs.Lemmas.TlshFinal
 import Proofs.Lemmas.Nilsimsa
 namespace Proofs.C19
 open Model Model.Tlsh Proofs.Lemmas.Tlsh
@@ -124,6 +125,49 @@ theorem tlsh_checksum_refines (c : Cfg) (hc : c.valid = true) (data : List Nat) 
 /-- component: `sorted(buckets)[k]` is the k-th order statistic -/
 theorem tlsh_quartile_is_order_statistic (l : List Nat) (k : Nat) (hk : k < l.length) :
     (isort l).getD k 0 = Spec.Tlsh.kth l k := isort_getD_eq_kth l k hk
+
+/-! ## TLSH: the finalisation phase on an explicit bucket array
+
+`finalOf` is `final(b'',force)` on an object whose `a_bucket`, `checksum`, `data_len` were set directly (op `tlsh.final`):
+the quartiles, the two Q ratios, Lvalue and the body code as a function of the bucket array alone, for EVERY array — not
+only those some hashed input produces. -/
+
+/-- hashing is bucket filling followed by `finalOf` of the state that `update` leaves behind -/
+theorem final_is_finalOf (lcap : Nat → Nat) (c : Cfg) (hc : c.valid = true) (data : List Nat) (force : Bool) :
+    final lcap c data force = finalOf lcap c (update c data) data.length force :=
+  final_eq_finalOf lcap c hc data force
+
+/-- the same split on the reference side: the reference digest is the reference encoding of the input's histogram -/
+theorem spec_tlsh_is_encode (lcap : Nat → Nat) (eff w chklen : Nat) (data : List Nat) (force : Bool) :
+    Spec.Tlsh.tlsh lcap eff w chklen data force
+      = Spec.Tlsh.encode lcap eff (Spec.Tlsh.buckets w data.toArray) (Spec.Tlsh.checksum w chklen data.toArray)
+          data.length force := rfl
+
+/-- on EVERY 256-entry bucket array, all checksum bytes, every data length and force flag the finalisation yields the
+    reference encoding (order-statistic quartiles, Q ratios by exact integer floor division, body), and None exactly
+    when the reference has no hash; never an exception -/
+theorem finalOf_refines (lcap : Nat → Nat) (c : Cfg) (hc : c.valid = true) (bucket ck : List Nat)
+    (hb : bucket.length = 256) (hck : ∀ x ∈ ck, x < 256) (n : Nat) (force : Bool) :
+    (finalOf lcap c ⟨ck, bucket⟩ n force).map (·.map digest) = .ok (Spec.Tlsh.encode lcap c.buckets bucket ck n force) :=
+  finalOf_eq_encode lcap c hc ⟨ck, bucket⟩ hb hck n force
+
+/-- the two Q nibbles are ⌊100·q1/q3⌋ mod 16 and ⌊100·q2/q3⌋ mod 16 of the RATIONAL quotients of the quartiles
+    (k = ⌊x/y⌋ stated without division: k·y ≤ x < (k+1)·y), and q3 > 0 whenever a digest is produced -/
+theorem finalOf_q_ratios (lcap : Nat → Nat) (c : Cfg) (hc : c.valid = true) (st : St) (hb : st.bucket.length = 256)
+    (n : Nat) (force : Bool) (o : TObj) (h : finalOf lcap c st n force = .ok (some o)) :
+    0 < (quartiles c st.bucket).2.2 ∧ ∃ k1 k2, o.q1 = k1 % 16 ∧ o.q2 = k2 % 16
+      ∧ k1 * (quartiles c st.bucket).2.2 ≤ 100 * (quartiles c st.bucket).1
+      ∧ 100 * (quartiles c st.bucket).1 < (k1 + 1) * (quartiles c st.bucket).2.2
+      ∧ k2 * (quartiles c st.bucket).2.2 ≤ 100 * (quartiles c st.bucket).2.1
+      ∧ 100 * (quartiles c st.bucket).2.1 < (k2 + 1) * (quartiles c st.bucket).2.2 := by
+  obtain ⟨rfl, h0⟩ := finalOf_some lcap c hc st hb n force o h
+  have hpos : 0 < (quartiles c st.bucket).2.2 := Nat.pos_of_ne_zero h0
+  refine ⟨hpos, (quartiles c st.bucket).1 * 100 / (quartiles c st.bucket).2.2,
+    (quartiles c st.bucket).2.1 * 100 / (quartiles c st.bucket).2.2, rfl, rfl, ?_, ?_, ?_, ?_⟩
+  · rw [Nat.mul_comm 100]; exact Nat.div_mul_le_self _ _
+  · rw [Nat.mul_comm 100, Nat.mul_comm _ (quartiles c st.bucket).2.2]; exact Nat.lt_mul_div_succ _ hpos
+  · rw [Nat.mul_comm 100]; exact Nat.div_mul_le_self _ _
+  · rw [Nat.mul_comm 100, Nat.mul_comm _ (quartiles c st.bucket).2.2]; exact Nat.lt_mul_div_succ _ hpos
 
 /-! ## Re-loading a digest -/
 
@@ -278,5 +322,11 @@ example : ∃ t, resolve (.raw [0xa7, 0xe0, 0x08, 0xcf, 0, 0x38, 0xff, 0x38, 0xe
 /-- two different equally long byte strings with a non-zero Hamming distance -/
 example : Nilsimsa.distance [0x80, 0x01] [0x01, 0x01] = .ok 2 := by
   rw [nilsimsa_distance_hamming [0x80, 0x01] [0x01, 0x01] rfl (by decide) (by decide)]; rfl
+
+/-- an explicit bucket array with quartiles (29,39,50) — the pair 29/50 where `q/q3*100` evaluated in floating point is
+    57.99999999999999 — passes both gates, and the model's Q nibbles are ⌊58⌋ mod 16 = 10 and ⌊78⌋ mod 16 = 14 -/
+example : (finalOf (fun _ => 0) ⟨128, 5, 1⟩
+    ⟨[0], List.replicate 32 29 ++ List.replicate 32 39 ++ List.replicate 32 50 ++ List.replicate 32 51 ++ List.replicate 128 0⟩
+    300 false).toOption.map (·.map fun o => (o.q1, o.q2)) = some (some (10, 14)) := by decide +kernel
 
 end Proofs.C19
